@@ -39,7 +39,8 @@ Theorem C07_id3f_lossless : forall f s t o f',
 Proof. exact c07_lossless. Qed.
 Print Assumptions C07_id3f_lossless.
 
-(* the hypothesis of C07_id3f_default_idempotent is necessary: 10250 bytes of padding behind which lie 1000 bytes
+(* known finding C07-id3-v1-removal-threshold (known_findings.json; direct oracle harness/fam/shared.py c07_id3_v1_threshold):
+   the hypothesis of C07_id3f_default_idempotent is necessary: 10250 bytes of padding behind which lie 1000 bytes
    (ID3v1 tag included) are kept by the first default save; if that save removed the ID3v1 tag (v1=0), the second one
    sees 872 bytes, its threshold drops to 10248 and the padding is cut to the policy's minimum *)
 Theorem C07_id3f_default_v1_removed_refuted :
